@@ -41,7 +41,7 @@ META = {
 
 
 def _mk_arc(dim):
-    @contract("C14", ARC + ".arc_center", name="centre-equidistant-from-the-three-points[%dD]" % dim, timeout=60000, budget=400, raises=(ValueError,))
+    @contract("C14", ARC + ".arc_center", name="centre-equidistant-from-the-three-points[%dD]" % dim, timeout=180000, budget=1200, raises=(ValueError,))
     def arc_center(h):
         P = h.reals("p", (3, dim))
         # non-collinear, ordinary magnitudes
